@@ -96,6 +96,16 @@ CHECKS = {
   text="Exploration: 8 sampled configurations per tree (all 42 on every 16th) over spec prefixes, injection templates, line-structured documents, inline/HTML/injection soup and mutations. Held on the renderings observed.",
   note="Trusted: refimpl/render and its stated conventions (escape spellings, my own percent-encoder, alt-text rule, either spelling for end tags of filtered elements and for character references in text).",
   ref="DESIGN.md section 6 C10"),
+ "C06": dict(
+  technique="runtime monitor with a reference model: abstract documents are serialised with random legal spelling choices and the library's rendering is compared, token by token (independent tokenizer, character references decoded), with the HTML obtained by structural recursion over the abstract document; plus two sub-monitors with trivial oracles (escape_all, code_verbatim)",
+  text="Exploration: 300 k (quick) / 20 M (thorough) model documents (all block kinds incl. nested tight/loose lists, quotes, HTML blocks, definitions; all inline kinds), each third also as CRLF; 200 k escape-all texts in 3 contexts; 100 k code blocks in 6 contexts x LF/CRLF. The model was calibrated at development time against goldmark (tools/modelcal), every disagreement resolved by the spec text. Held on the documents observed.",
+  note="Trusted: harness/model (serializer emits only spellings whose meaning the spec fixes; DESIGN Appendix C), my tokenizer. Bounds: <= 40 nodes per document, nesting <= 3.",
+  ref="DESIGN.md section 6 C06"),
+ "C20": dict(
+  technique="runtime monitor with fault injection at the client boundary: a recording io.Writer fails at its j-th call (every j up to 400 calls, Write and WriteString paths, short writes) and the monitor checks the returned error by identity and that no call follows; healthy-writer determinism and tree immutability on every input; metamorphic round trip (HTML preserved, Format idempotent) on canonical-style model documents",
+  text="Exploration: clause 1 on spec prefixes, line-structured, soup, mutated and pathological documents with full writer-fault sweeps on a quarter of them; clause 2 on 300 k (quick) / 15 M (thorough) canonical-style documents over the construct set fixed in DESIGN C20. Held on the executions observed.",
+  note="Trusted: the model's canonical profile; my tokenizer for the HTML comparison.",
+  ref="DESIGN.md section 6 C20"),
 }
 
 NOT_YET = {}
